@@ -103,13 +103,13 @@ func (sc *Scenario) Hash() string {
 	c.Expect = nil
 	c.Log = nil
 	c.Seed = 0
-	b, _ := json.Marshal(&c)
+	b, _ := json.Marshal(wireCopy(&c, wireEncode))
 	h := sha256.Sum256(b)
 	return hex.EncodeToString(h[:8])
 }
 
 func (sc *Scenario) Save(path string) error {
-	b, err := json.MarshalIndent(sc, "", " ")
+	b, err := json.MarshalIndent(wireCopy(sc, wireEncode), "", " ")
 	if err != nil {
 		return err
 	}
@@ -125,7 +125,11 @@ func LoadScenario(path string) (*Scenario, error) {
 	if err := json.Unmarshal(b, &sc); err != nil {
 		return nil, err
 	}
-	return &sc, nil
+	dec := wireCopy(&sc, wireDecode).(*Scenario)
+	if dec.World != nil {
+		dec.World.byID = nil
+	}
+	return dec, nil
 }
 
 // Event is one entry of the simulator's event log.
